@@ -28,6 +28,7 @@ type procSpec struct {
 	locals         []string          // Go variables bound by a verbatim statement of `stmts`
 	loopElem       string            // element type of a first-match loop (translated as a structural recursion over the list)
 	protoMaps      map[string]string // Go expression of a map keyed by protocol (e.g. conn.AllowedProtocols) -> Lean variable of type ConnSet
+	nameMaps       map[string]string // Go expression of a map[string]bool used as a set of names (p.NamedPorts) -> Lean place var.field : List String
 	retCalls       map[string]string // Go call text in `return call(...)` (the callee returns value and error) -> Lean term
 	result         string            // value of `return nil` (error-only functions) and of falling off the end
 	pure           bool              // no error result: `return x` is `return x`
@@ -42,7 +43,7 @@ type procTr struct {
 	alias    map[string][2]string // range value variable -> (Lean ConnSet variable, Lean key): a pointer into the map entry
 }
 
-var fieldNames = map[string]string{"AllowedConns": "allowed", "DeniedConns": "denied", "PassConns": "pass", "AllowAll": "allowAll"}
+var fieldNames = map[string]string{"AllowedConns": "allowed", "DeniedConns": "denied", "PassConns": "pass", "AllowAll": "allowAll", "Ports": "ports"}
 var updMethods = map[string]string{"Subtract": "subtract", "Union": "union", "Intersection": "inter"}
 var pureMethods = map[string]string{"Copy": "copy", "IsEmpty": "isEmpty", "DeterminesAllConns": "determinesAll", "IsAll": "isAll"}
 var pureMethods1 = map[string]string{"ContainedIn": "containedIn", "Equal": "equal"}                                    // one argument, no effect
@@ -132,6 +133,10 @@ func (t *procTr) expr(e ast.Expr) (string, error) {
 			}
 		}
 	case *ast.IndexExpr:
+		if pl, ok := t.sp.nameMaps[norm(text(x.X))]; ok { // membership in a set of names
+			k, err := t.expr(x.Index)
+			return "(" + pl + ".contains " + k + ")", err
+		}
 		// an entry of a map keyed by protocol, read where the code knows it is present (a missing entry would be a nil dereference)
 		if cs, ok := t.sp.protoMaps[norm(text(x.X))]; ok {
 			k, err := t.expr(x.Index)
@@ -206,6 +211,14 @@ func (t *procTr) block(list []ast.Stmt, ind string) ([]string, error) {
 				continue
 			}
 			if ix, ok := x.Lhs[0].(*ast.IndexExpr); ok && len(x.Lhs) == 1 && x.Tok == token.ASSIGN {
+				if pl, ok := t.sp.nameMaps[norm(text(ix.X))]; ok { // S[k] = true (or the value of another such set: always true)
+					k, err := t.expr(ix.Index)
+					if err != nil {
+						return nil, err
+					}
+					out = append(out, setPlace(pl, "sinsert "+k+" "+pl, ind))
+					continue
+				}
 				if cs, ok := t.sp.protoMaps[norm(text(ix.X))]; ok { // M[k] = v
 					k, err := t.expr(ix.Index)
 					if err != nil {
@@ -289,6 +302,14 @@ func (t *procTr) block(list []ast.Stmt, ind string) ([]string, error) {
 				return nil, fmt.Errorf("untranslatable statement %q", norm(text(st)))
 			}
 			if id, ok := call.Fun.(*ast.Ident); ok && id.Name == "delete" && len(call.Args) == 2 {
+				if pl, ok := t.sp.nameMaps[norm(text(call.Args[0]))]; ok {
+					k, err := t.expr(call.Args[1])
+					if err != nil {
+						return nil, err
+					}
+					out = append(out, setPlace(pl, "serase "+k+" "+pl, ind))
+					continue
+				}
 				cs, ok := t.sp.protoMaps[norm(text(call.Args[0]))]
 				if !ok {
 					return nil, fmt.Errorf("untranslatable delete %q", norm(text(st)))
@@ -634,6 +655,19 @@ func (t *procTr) rangeOf(x *ast.RangeStmt) (*rangeInfo, error) {
 		})
 		return ri, bad
 	}
+	if pl, ok := t.sp.nameMaps[norm(text(x.X))]; ok {
+		// a set of names is visited name by name (the order of a Go map is arbitrary; the bodies insert into and erase from sets,
+		// which commutes); the value variable, if any, is always true
+		k, ok := x.Key.(*ast.Ident)
+		if !ok || k.Name == "_" {
+			return nil, fmt.Errorf("loop over a set of names without a key variable %q", norm(text(x.X)))
+		}
+		ri := &rangeInfo{lst: pl, v: k.Name}
+		if v, ok := x.Value.(*ast.Ident); ok && v.Name != "_" {
+			ri.pre = append(ri.pre, "let "+leanIdent(v.Name)+" := true")
+		}
+		return ri, nil
+	}
 	v, okv := x.Value.(*ast.Ident)
 	if !okv {
 		return nil, fmt.Errorf("untranslatable loop %q", norm(text(x.X)))
@@ -690,6 +724,13 @@ func (t *procTr) body(list []ast.Stmt, ind string) ([]string, error) {
 		out = []string{ind + "pure ()"}
 	}
 	return out, nil
+}
+
+// setPlace: `var.field := value` as a re-binding of the variable
+func setPlace(place, val, ind string) string {
+	i := strings.LastIndex(place, ".")
+	v, f := place[:i], place[i+1:]
+	return ind + v + " := { " + v + " with " + f + " := " + val + " }"
 }
 
 // refresh: a variable that points into the map entry (cs, k) sees the entry as it is after an update
@@ -939,6 +980,28 @@ func genProcs(repo, out string) {
 		{file: "pkg/netpol/internal/common/connectionset.go", fn: "ConnectionSet.ContainedIn", lean: "containedIn",
 			sig: "(conn other : ConnSet) : Except Err Bool", pure: true, loopElem: "Proto",
 			protoMaps: map[string]string{"conn.AllowedProtocols": "conn", "other.AllowedProtocols": "other"}},
+		{file: "pkg/netpol/internal/common/portset.go", fn: "PortSet.Union", lean: "portSetUnion",
+			sig: "(p other : PortSet) : Except Err PortSet", muts: []string{"p"}, result: "p",
+			atoms:    map[string]string{"p.Ports.Union(other.Ports)": "(CSet.union p.ports other.ports)"},
+			nameMaps: map[string]string{"p.NamedPorts": "p.named", "p.ExcludedNamedPorts": "p.excluded", "other.NamedPorts": "other.named", "other.ExcludedNamedPorts": "other.excluded"}},
+		{file: "pkg/netpol/internal/common/portset.go", fn: "PortSet.subtractNamedPorts", lean: "portSetSubtractNamedPorts",
+			sig: "(p : PortSet) (otherNamedPorts : List String) : Except Err PortSet", muts: []string{"p"}, result: "p",
+			nameMaps: map[string]string{"p.NamedPorts": "p.named", "p.ExcludedNamedPorts": "p.excluded", "otherNamedPorts": "otherNamedPorts"}},
+		{file: "pkg/netpol/internal/common/portset.go", fn: "PortSet.subtract", lean: "portSetSubtract",
+			sig: "(p other : PortSet) : Except Err PortSet", muts: []string{"p"}, result: "p",
+			atoms: map[string]string{"p.Ports.Subtract(other.Ports)": "(CSet.subtract p.ports other.ports)"},
+			stmts: map[string]string{"p.subtractNamedPorts(other.NamedPorts)": "p ← portSetSubtractNamedPorts p other.named"}},
+		{file: "pkg/netpol/internal/common/portset.go", fn: "PortSet.Intersection", lean: "portSetIntersection",
+			sig: "(p other : PortSet) : Except Err PortSet", muts: []string{"p"}, result: "p",
+			atoms: map[string]string{"p.Ports.Intersect(other.Ports)": "(CSet.inter p.ports other.ports)"}},
+		{file: "pkg/netpol/internal/common/portset.go", fn: "PortSet.ContainedIn", lean: "portSetContainedIn",
+			sig: "(p other : PortSet) : Except Err Bool", pure: true, loopElem: "String",
+			atoms: map[string]string{"p.Ports.IsSubset(other.Ports)": "(CSet.isSubset p.ports other.ports)",
+				"other.Ports.Equal(MakePortSet(true).Ports)": "(CSet.equal other.ports (PortSet.mk' true).ports)"},
+			nameMaps: map[string]string{"p.NamedPorts": "p.named", "other.NamedPorts": "other.named"}},
+		{file: "pkg/netpol/internal/common/portset.go", fn: "PortSet.IsAll", lean: "portSetIsAll",
+			sig: "(p : PortSet) : Except Err Bool", pure: true,
+			atoms: map[string]string{"p.Ports.Equal(MakePortSet(true).Ports)": "(CSet.equal p.ports (PortSet.mk' true).ports)", "len(p.ExcludedNamedPorts)": "p.excluded.length"}},
 		{file: k8sdir + "netpol.go", fn: "NetworkPolicy.policyAffectsDirection", lean: "policyAffectsDirection",
 			sig: "(types : List Dir) (direction : Dir) (nEgress : Nat) : Except Err Bool", pure: true,
 			atoms: map[string]string{"len(np.Spec.PolicyTypes)": "types.length", "np.Spec.PolicyTypes": "types", "netv1.PolicyTypeIngress": "Dir.ingress",
